@@ -1,3 +1,6 @@
 -- This module serves as the root of the `Cfg` library.
--- Import modules here that should be built as part of the library.
 import Cfg.Basic
+import Cfg.Router
+import Cfg.RateLimit
+import Cfg.Lifecycle
+import Cfg.Documented
